@@ -225,6 +225,35 @@ func genC06(e *emitter, tier string, seed uint64) {
 				}
 			}
 		}
+		// ---- legacy signature removal: the script code loses the canonical pushes of exactly the signature — not pushes that
+		//      merely contain it. The signature is made over the code without the embedding push, then embedded.
+		if sh == 0 {
+			k := keys[1]
+			for _, multi := range []bool{false, true} {
+				tail := append(append([]byte{0x75}, rawPush(k.pubC)...), 0xac)
+				if multi {
+					tail = append(append(append([]byte{0x75, 0x51}, rawPush(k.pubC)...), 0x51), 0xae)
+				}
+				for _, ht := range []byte{0x01, 0x02, 0x03, 0x81, 0x41} {
+					sig := signFor(tx, idx, tail, sats, ht, k, false)
+					embed := [][]byte{rawPush(sig), rawPush(append(append([]byte{}, sig...), 0x01)), rawPush(append([]byte{0x00}, sig...)),
+						rawPush(append(append([]byte{0xaa}, sig...), 0xbb)), rawPush(sig[1:]), append([]byte{0x4c, byte(len(sig))}, sig...)}
+					for vi, em := range embed {
+						lock := append(append([]byte{}, em...), tail...)
+						unlock := rawPush(sig)
+						if multi {
+							unlock = append([]byte{0x00}, unlock...)
+						}
+						for _, fl := range []int{0, fAfterGenesis, fForkID, fNullFail} {
+							if (fl&fForkID != 0) != (ht&0x40 != 0) {
+								continue
+							}
+							note(fmt.Sprintf("sig-embedded.%d", vi), ixExecTx(e, fl, unlock, lock, tx, idx, sats))
+						}
+					}
+				}
+			}
+		}
 		// ---- public-key encodings (STRICTENC polices them at every key a signature is tried against, not only the first)
 		if sh == 0 {
 			forms := func(k keyPair) [][]byte {
